@@ -299,6 +299,11 @@ let run_case (line : string) =
      let (status, outp) = Cli.merge_cmd o files inc ns in
      out (string_of_int (int_of_nat status));
      (match outp with None -> out " none" | Some x -> out " doc "; pr_xml x)
+   | "ser" ->
+     let x = rd_xml r in pr_str (Codec.ser x)
+   | "parse" ->
+     let t = rd_str r in
+     (match Codec.parse t with None -> out "none" | Some x -> out "some "; pr_xml x)
    | "coll" ->
      let o = rd_oracles r in
      let inc = rd_bool r in
